@@ -2037,8 +2037,14 @@ class CallsMixin:
 
     def bi_str_count(self, b, args, kwargs, node):
         f = z3.Function('str_count', S, S, I)
-        r = f(Value.s(b.self_val), Value.s(self.val(args[0])))
+        hay, needle = Value.s(b.self_val), z3.simplify(Value.s(self.val(args[0])))
+        r = f(hay, needle)
         self.assume(r >= 0)
+        if z3.is_string_value(needle) and len(needle.as_string()) == 1 and not (args[1:] or kwargs):
+            # trusted spec of str.count for a one-character needle: at most one occurrence per position, and none
+            # exactly when str.find reports none (DESIGN 2.4); the number itself stays uninterpreted
+            self.assume(r <= z3.Length(hay))
+            self.assume((r == 0) == (z3.IndexOf(hay, needle, z3.IntVal(0)) == -1))
         return VInt(r)
 
     def bi_str_startswith(self, b, args, kwargs, node):
